@@ -15,7 +15,7 @@ package actor
 //   claimz <ttl> | z <tick> <utcOffsetHours> <storeSec> ; …   the same job function, the fake store keyed on
 //                             the RAW key string, each attempt under its own process-local time zone
 //   ttl <periodNs|err1|err2>  the REAL cronClaimTTL on a fake trigger with that period
-//   t-once <ms> / t-every <ms> <k> / t-pause <ms> <k>   real quartz, short delays, one-sided checks
+//   t-once <ms> / t-oncepr <ms> / t-every <ms> <k> / t-pause <ms> <k>   real quartz, short delays, one-sided checks
 //   const                     the compiled claim-TTL bounds
 
 import (
@@ -515,6 +515,39 @@ func verifC19Timing(f []string) string {
 		n := verifC19Act.count(ref)
 		cerr := sch.CancelSchedule(ref) // a delivered one-shot is gone: cancelling reports an error
 		return fmt.Sprintf("early=%v n=%d cancel-after=%s", early, n, map[bool]string{true: "ok", false: "error"}[cerr == nil])
+	case "t-oncepr":
+		// a one-shot paused before its delay elapses and resumed AFTER its fire instant has passed: it must
+		// then be delivered exactly once (a second delivery is a positive observation; none within the
+		// bounded wait is `late`)
+		if err := sch.ScheduleOnce(msg, verifC19Pid, d, WithReference(ref)); err != nil {
+			return "err:" + verifC19ErrName(err)
+		}
+		defer func() { _ = sch.CancelSchedule(ref) }()
+		if err := sch.PauseSchedule(ref); err != nil {
+			return "raced" // the one-shot fired before it could be paused (slow machine): no claim
+		}
+		time.Sleep(d + 50*time.Millisecond)
+		if verifC19Act.count(ref) != 0 {
+			return fmt.Sprintf("delivered-while-paused=%d", verifC19Act.count(ref))
+		}
+		if err := sch.ResumeSchedule(ref); err != nil {
+			return "resume:" + verifC19ErrName(err)
+		}
+		if !verifC19Act.waitCount(ref, 1, 10*time.Second) {
+			return "late"
+		}
+		time.Sleep(3*d + 100*time.Millisecond)
+		n := verifC19Act.count(ref)
+		if n > 1 {
+			n = 2 // "more than once": the exact number depends on the machine
+		}
+		listed := false
+		for _, i := range sch.ListSchedules() {
+			if i.Reference == ref {
+				listed = true
+			}
+		}
+		return fmt.Sprintf("n=%d listed=%v", n, listed)
 	case "t-every", "t-pause":
 		if len(f) != 3 {
 			return "bad-case"
@@ -614,7 +647,7 @@ func VerifC19Run(line string) string {
 			return "bad-case"
 		}
 		return verifC19TTL(f[1])
-	case "t-once", "t-every", "t-pause":
+	case "t-once", "t-oncepr", "t-every", "t-pause":
 		if len(f) < 2 {
 			return "bad-case"
 		}
